@@ -16,7 +16,8 @@ the listing specification: the visible items strictly after the start point, asc
 each once, delivered to a consumer that declines at its k-th item; a server page limit
 below the client's page size fails the first request. -/
 def drive : List String → String
-  | "held" :: _ => "skip"   -- a listing obtained, the registry changed, the listing then consumed: judged by the oracle
+  | "held" :: _ => "skip"
+  | "big" :: _ => "skip"    -- ten thousand and more items through the wire: compared with the direct listing by the oracle   -- a listing obtained, the registry changed, the listing then consumed: judged by the oracle
   | what :: stack :: ps :: mx :: _omit :: k :: start :: n :: rest =>
     match ps.toInt?, mx.toNat?, Hex.decodeTok start, n.toNat?, rest.mapM Hex.decodeTok with
     | some ps, some mx, some start, some n, some items =>
